@@ -522,6 +522,27 @@ class Checker:
         gt = self._m(self.rrt, 'generateTree')
         ok = any(isinstance(c, ast.Call) and isinstance(c.func, ast.Attribute) and c.func.attr == 'generalGenerateTree' for c in ast.walk(gt.node))
         rep.ob('R16.6', gt, 'generateTree delegates to generalGenerateTree', ok, 'default tree method bypasses the checked growth loop')
+        # ... with the planner's own sampler, metric and collision test, each handed the pair of nodes and nothing else: the tree of the
+        # default route is collision-free under planner.obstruction (all registered boxes), and its costs use planner.distance
+        gcalls = [c for c in ast.walk(gt.node) if isinstance(c, ast.Call) and isinstance(c.func, ast.Attribute) and c.func.attr == 'generalGenerateTree']
+        ggt = self._m(self.rrt, 'generalGenerateTree')
+        want = {1: ('distance', 2), 2: ('obstruction', 2)}
+        for c in gcalls:
+            for k, (meth, arity) in want.items():
+                pname = ggt.params[k + 1] if k + 1 < len(ggt.params) else None
+                a_ = c.args[k] if k < len(c.args) else next((kw.value for kw in c.keywords if kw.arg == pname), None)
+                ok_ = False
+                got = src(a_)[:80] if a_ is not None else 'nothing'
+                if isinstance(a_, ast.Attribute) and isinstance(a_.value, ast.Name) and a_.value.id == 'self' and a_.attr == meth:
+                    ok_ = True
+                elif isinstance(a_, ast.Lambda) and not a_.args.defaults and not a_.args.kwonlyargs and len(a_.args.args) == arity:
+                    b = a_.body
+                    ok_ = isinstance(b, ast.Call) and src(b.func) == 'self.' + meth and not b.keywords \
+                        and [src(x) for x in b.args] == [x.arg for x in a_.args.args]
+                rep.ob('R16.6', gt, 'generateTree hands generalGenerateTree self.%s applied to the two nodes' % meth, ok_,
+                       ('the %s callback of the default route is %s: it is not the planner\'s own %s applied to exactly the two nodes (e.g. a '
+                        'pre-filtered obstruction subset: edges from nodes outside the filtered region are then not tested against every '
+                        'registered box, so the tree has parent links that collide under planner.obstruction)' % (pname, got, meth)), line=c.lineno)
 
     def index_layout(self):
         """R16.9: the spatial index stores and queries a node at its own position: for each supported dimensionality d the coordinate
